@@ -80,12 +80,38 @@ func (m *mon) onApply(ev chaingen.ApplyEvent) {
 			m.use(d.SiafundElement.ID, h, "spent", &ids)
 		}
 	}
+	createdSC := map[types.SiacoinOutputID]bool{}
+	for _, d := range ev.AU.SiacoinElementDiffs() {
+		if d.Created {
+			createdSC[d.SiacoinElement.ID] = true
+		}
+	}
 	for _, d := range ev.AU.FileContractElementDiffs() {
 		if d.Created {
 			mk(d.FileContractElement.ID)
 		}
 		if d.Resolved {
 			m.use(d.FileContractElement.ID, h, "resolved", &ids)
+			// one resolution pays one of the two output sets; both sets in one block are two resolutions
+			fc := d.FileContractElement.FileContract
+			if d.Revision != nil {
+				fc = *d.Revision
+			}
+			valid, missed := 0, 0
+			for i := range fc.ValidProofOutputs {
+				if createdSC[d.FileContractElement.ID.ValidOutputID(i)] {
+					valid++
+				}
+			}
+			for i := range fc.MissedProofOutputs {
+				if createdSC[d.FileContractElement.ID.MissedOutputID(i)] {
+					missed++
+				}
+			}
+			m.b.Count("v1_resolutions_payout_sets_checked", 1)
+			if valid > 0 && missed > 0 {
+				m.b.Violate("C02/trace/v1-contract-resolved-twice-in-one-block"+m.ctx, fmt.Sprintf("the block at height %d creates %d valid-proof outputs and %d missed-proof outputs of contract %x: it was resolved by a storage proof and by expiry", h, valid, missed, d.FileContractElement.ID[:8]), map[string]any{"height": h})
+			}
 		}
 		if d.Revision != nil && !d.Resolved {
 			if at, ok := m.spent[d.FileContractElement.ID]; ok {
